@@ -6,11 +6,13 @@
    interior point, neither with all its vertices strictly inside the other, have an edge pair satisfying
    the segment predicate - so the polygon test says yes (C12_exit_through_an_edge is the key step;
    C12_hypotheses_satisfiable shows the hypotheses are met by two overlapping squares).
-   NOT proved: invariance under a common rigid motion as a theorem about the test itself (it follows for
-   the exact answers from the two directions above).  The known findings D12/D13 show that in binary64
-   the completeness direction fails at exactly aligned configurations (the reals theorem does not). *)
+   Invariance (C12_shape_intersects_rigid_invariant): every shape test gives the same answer after one common
+   rigid motion or reflection of both shapes; the segment / polygon test even after any invertible affine map
+   (all three determinants of Line2::intersects scale by the map's determinant).
+   The known findings D12/D13 show that in binary64 completeness and invariance fail at exactly aligned
+   configurations (the reals theorems do not). *)
 From Coq Require Import ZArith List Bool Reals. Import ListNotations.
-From PV Require Import Num NumR model.Geom proofs.LatticeFacts proofs.SiteFacts proofs.OverlapFacts proofs.ConvexFacts proofs.PackingFacts.
+From PV Require Import Num NumR model.Geom proofs.LatticeFacts proofs.SiteFacts proofs.OverlapFacts proofs.ConvexFacts proofs.PackingFacts proofs.MotionFacts.
 
 Theorem C12_seg_yes_gives_common_point :
   forall s o : segR, seg_intersects NumR s o = true -> exists ta tb : R, (0 <= ta <= 1)%R /\ (0
@@ -87,4 +89,23 @@ Theorem C12_hypotheses_satisfiable :
     (Poly Q) = true.
 Proof. exact overlapping_squares_meet_the_hypotheses. Qed.
 Print Assumptions C12_hypotheses_satisfiable.
+
+Theorem C12_seg_intersects_affine_invariant :
+  forall (t : tfR) (s o : segR), affine_row t -> det2 t <> 0%R -> seg_intersects NumR
+    (seg_transform NumR t s) (seg_transform NumR t o) = seg_intersects NumR s o.
+Proof. exact seg_intersects_affine_invariant. Qed.
+Print Assumptions C12_seg_intersects_affine_invariant.
+
+Theorem C12_shape_intersects_rigid_invariant :
+  forall (t : tfR) (a b : shape NumR), affine_row t -> rigid t -> shape_intersects NumR
+    (shape_transform NumR t a) (shape_transform NumR t b) = shape_intersects NumR a b.
+Proof. exact shape_intersects_rigid_invariant. Qed.
+Print Assumptions C12_shape_intersects_rigid_invariant.
+
+Theorem C12_poly_intersects_affine_invariant :
+  forall (t : tfR) (l m : list segR), affine_row t -> det2 t <> 0%R -> shape_intersects NumR
+    (shape_transform NumR t (Poly l)) (shape_transform NumR t (Poly m)) = shape_intersects NumR
+    (Poly l) (Poly m).
+Proof. exact poly_intersects_affine_invariant. Qed.
+Print Assumptions C12_poly_intersects_affine_invariant.
 
